@@ -47,7 +47,7 @@ NT_RULE = ('one case = one thermdat file: 1-200 generated NASA-7 species (list o
            'files; non-trivial = the file contains a species whose name contains END or THERMO, or a '
            'count of >=2 digits, or 4 elements, or a 15-character name; distinct = distinct canonical '
            'JSON of the file spec')
-REQUIRED_ORACLES = ['L1', 'L2', 'L3', 'L4']
+REQUIRED_ORACLES = ['L1', 'L2', 'L3', 'L4', 'H']
 REQUIRED_CLASSES = [
     'twins', 'input:list', 'input:dict', 'read:list', 'read:tuple', 'read:dict', 'output:file', 'output:string',
     'date:on', 'date:off', 'notes:none', 'notes:short', 'notes:long', 'notes:blank_inside', 'notes:keyword',
@@ -74,6 +74,11 @@ REQUIRED_CLASSES = [
     # ninth-digit rounding carries into the next decade (9.999999995e k <= |x| < 1e k+1)
     'coef:carry', 'coef:carry:record2', 'coef:carry:record3', 'coef:carry:record4', 'coef:carry:last_field',
     'coef:carry:negative', 'coef:carry:1ulp', 'coef:carry:exp<-9', 'coef:carry:exp>9', 'coef:below_carry',
+    # histories on files and on the objects that were returned (oracle H)
+    'hist:reread', 'hist:reread:same_format', 'hist:reread:other_format',
+    'hist:format2:list', 'hist:format2:tuple', 'hist:format2:dict',
+    'hist:edit:coefficients', 'hist:edit:name', 'hist:edit:elements', 'hist:edit:T', 'hist:edit:notes',
+    'hist:edit:phase', 'hist:rewrite_same_size_same_mtime', 'hist:paths', 'hist:derive',
 ]
 REQUIRED_PROBES = ['write_thermdat', 'read_thermdat', '_write_line1', '_write_line2', '_write_line3',
                    '_write_line4', '_insert_space', '_read_line1', '_read_line2', '_read_line3',
@@ -95,6 +100,11 @@ ASSUMPTIONS = [
     'supplementary entries are produced by an independent formatter in the same fixed-column layout and must '
     'be read back in front of the written species',
     'notes / date text is not part of the identity that is asserted (telemetry only)',
+    'histories (oracle H): a file that was not changed reads back identically (field by field, bit for bit) no '
+    'matter what the program did to the objects returned by an earlier read, which format= is used, or how the '
+    'same path is spelled (relative after chdir, symlink, "./", "//"); two reads never share Nasa objects, '
+    'coefficient arrays or element dictionaries; a path whose content was replaced (same byte size, '
+    'modification time pinned with os.utime, as on a coarse-mtime file system) reads back as the new content',
 ]
 
 T_TOL = 0.05 + 1e-6
@@ -549,7 +559,19 @@ def generate(rng, tier):
                     twin['phase'] = rng.choice(PHASES[:4])
                 spec['species'].insert(i + 1, twin)
                 break
+    if len(spec['species']) <= 30 and rng.random() < 0.5:
+        spec['history'] = gen_history(rng)
     return spec
+
+
+HIST_KINDS = ['reread', 'reread', 'rewrite', 'paths', 'derive']
+EDIT_KINDS = ['coefficients', 'name', 'elements', 'T', 'notes', 'phase']
+
+
+def gen_history(rng):
+    return {'kind': rng.choice(HIST_KINDS), 'format2': rng.choice(['list', 'tuple', 'dict']),
+            'edits': sorted(rng.sample(EDIT_KINDS, rng.randint(1, len(EDIT_KINDS)))),
+            'targets': rng.choice(['first', 'last', 'all'])}
 
 
 def _kw(s):
@@ -690,6 +712,21 @@ def directed(tier):
     D.append(F([gen_species(rng, nm) for nm in names], read_format='tuple',
                supp=[dict(gen_supp(rng, 0))], supp_txt='! forty species'))
     D[-1]['supp_newline'] = False
+    # histories: every kind, every (format, format2) pair for the re-read, single edits and all edits
+    k = 0
+    for kind in ('reread', 'rewrite', 'paths', 'derive'):
+        for f1 in ('list', 'tuple', 'dict'):
+            for f2 in ('list', 'tuple', 'dict'):
+                if kind != 'reread' and f1 != 'list' and f2 != f1:
+                    continue
+                edits = list(EDIT_KINDS) if k % 3 == 0 else [EDIT_KINDS[k % 6]] if k % 3 == 1 else \
+                    [EDIT_KINDS[k % 6], EDIT_KINDS[(k + 2) % 6]]
+                D.append(F([CH4, H2O, S('Pt(S)', [('Pt', 1)], phase='S', notes='site'), OK], read_format=f1,
+                           output='file' if k % 2 else 'string', input='dict' if k % 4 == 2 else 'list',
+                           supp=[gen_supp(rng, 0)] if k % 5 == 0 else None))
+                D[-1]['history'] = {'kind': kind, 'format2': f2, 'edits': sorted(edits),
+                                    'targets': ('first', 'last', 'all')[k % 3]}
+                k += 1
     return D
 
 
@@ -1025,6 +1062,18 @@ def _classes(spec, ctx):
                 or any(el[1] >= 10 for el in nz)):
             nt = True
     ctx.nontrivial(nt)
+    h = spec.get('history')
+    if h:
+        if h['kind'] == 'reread':
+            ctx.cls('hist:reread', 'hist:reread:same_format' if h['format2'] == spec['read_format']
+                    else 'hist:reread:other_format')
+        elif h['kind'] == 'rewrite':
+            ctx.cls('hist:rewrite_same_size_same_mtime')
+        else:
+            ctx.cls('hist:' + h['kind'])
+        ctx.cls('hist:format2:' + h['format2'])
+        for e in h['edits']:
+            ctx.cls('hist:edit:' + e)
 
 
 # ---------------------------------------------------------------- oracles
@@ -1407,7 +1456,285 @@ def run_case(spec, ctx):
         ok = check_readback_species(ctx, r, exp, sp_of[i], part_of[i], diag, j)
         if ok and (j < 0 or j in l3):
             check_values(ctx, r, objs[j] if j >= 0 else None, exp, part_of[i])
+    if spec.get('history') and conserved:
+        cwd = os.getcwd()
+        try:
+            run_history(ctx, spec, spec['history'], path, back, vals, expected, kw, coll)
+        finally:
+            os.chdir(cwd)
     _cleanup(path, tmp)
+
+
+# ---------------------------------------------------------------- histories (oracle H)
+def _snap(r):
+    """Deep copy of everything a read reports about one species."""
+    return {'name': r.name, 'phase': r.phase, 'elements': dict(r.elements), 'T_low': float(r.T_low),
+            'T_mid': float(r.T_mid), 'T_high': float(r.T_high), 'a_low': [float(v) for v in r.a_low],
+            'a_high': [float(v) for v in r.a_high], 'notes': r.notes}
+
+
+_FIELDS = ('name', 'phase', 'elements', 'T_low', 'T_mid', 'T_high', 'a_low', 'a_high', 'notes')
+
+
+def _snap_diff(got, want):
+    for f in _FIELDS:
+        if got[f] != want[f]:
+            return f
+    return None
+
+
+def _exp_diff(r, exp):
+    """First field of a species read back that differs from the expected values (format
+    tolerances), or None."""
+    if r.name != exp['name']:
+        return 'name'
+    if r.phase != exp['phase']:
+        return 'phase'
+    if dict(r.elements) != exp['elements']:
+        return 'elements'
+    for f in ('T_low', 'T_mid', 'T_high'):
+        if not abs(float(getattr(r, f)) - exp[f]) <= T_TOL:
+            return f
+    for f in ('a_low', 'a_high'):
+        if not _rel_err([float(v) for v in getattr(r, f)], exp[f]) <= A_TOL:
+            return f
+    return None
+
+
+def _values(back, fmt):
+    return list(back.values()) if fmt == 'dict' else list(back)
+
+
+def _edited(snap, i, kinds):
+    """What species i is turned into by the program (explicit, in-range values)."""
+    e = dict(snap, elements=dict(snap['elements']), a_low=list(snap['a_low']), a_high=list(snap['a_high']))
+    if 'coefficients' in kinds:
+        e['a_low'] = [-v for v in snap['a_low']]
+        e['a_low'][0] = 1.25 + i
+        e['a_high'] = list(snap['a_high'][::-1])
+        e['a_high'][6] = -7.5 - i
+    if 'name' in kinds:
+        e['name'] = ('d%d_%s' % (i, snap['name']))[:15]
+    if 'elements' in kinds:
+        e['elements'] = {'He': i % 9 + 1, 'C': 2}
+    if 'T' in kinds:
+        e['T_low'] = snap['T_low'] + 0.3
+        e['T_mid'] = snap['T_mid'] + 0.5
+        e['T_high'] = snap['T_high'] - 0.3
+    if 'notes' in kinds:
+        e['notes'] = 'edited'
+    if 'phase' in kinds:
+        e['phase'] = 'L' if snap['phase'] != 'L' else 'S'
+    return e
+
+
+def _apply_edit(r, e, kinds):
+    """Edit a returned species in place, the way a program deriving a new species would:
+    array contents and the element dictionary are mutated, other attributes re-bound."""
+    import numpy as np
+    if 'coefficients' in kinds:
+        r.a_low[:] = e['a_low']                       # in place: the array object stays
+        r.a_high = np.array(e['a_high'])              # re-bound
+    if 'name' in kinds:
+        r.name = e['name']
+    if 'elements' in kinds:
+        r.elements.clear()
+        r.elements.update(e['elements'])
+    if 'T' in kinds:
+        r.T_low, r.T_mid, r.T_high = e['T_low'], e['T_mid'], e['T_high']
+    if 'notes' in kinds:
+        r.notes = e['notes']
+    if 'phase' in kinds:
+        r.phase = e['phase']
+
+
+def _targets(n, which):
+    return [0] if which == 'first' else [n - 1] if which == 'last' else list(range(n))
+
+
+def _read_equals_snapshot(ctx, step, h, path, fmt2, snaps, earlier=None):
+    """Read `path` and demand exactly the snapshot taken from the unchanged file."""
+    from pmutt.io.thermdat import read_thermdat
+    import numpy as np
+    mech = {'history': step, 'format2': fmt2}
+    back = ctx.call('H', mech, read_thermdat, path, format=fmt2)
+    if back is core.NOVALUE:
+        return None
+    want_type = {'list': list, 'tuple': tuple, 'dict': dict}[fmt2]
+    if not ctx.check('H', type(back) is want_type, dict(mech, field='container'), got=type(back).__name__):
+        return None
+    vals = _values(back, fmt2)
+    if not ctx.check('H', len(vals) == len(snaps), dict(mech, field='count'), got=len(vals), want=len(snaps)):
+        return None
+    if fmt2 == 'dict':
+        ctx.check('H', list(back.keys()) == [s['name'] for s in snaps], dict(mech, field='dict_keys'),
+                  got=list(back.keys())[:6], want=[s['name'] for s in snaps][:6], edits=h['edits'])
+    for i, (r, s) in enumerate(zip(vals, snaps)):
+        d = _snap_diff(_snap(r), s)
+        ctx.check('H', d is None, dict(mech, field=d), index=i, got=_snap(r).get(d) if d else None,
+                  want=s.get(d) if d else None, edits=h['edits'], targets=h['targets'])
+    if earlier is not None:
+        for i, (r, old) in enumerate(zip(vals, earlier)):
+            shared = (r is old or r.elements is old.elements or np.shares_memory(r.a_low, old.a_low)
+                      or np.shares_memory(r.a_high, old.a_high))
+            ctx.check('H', not shared, dict(mech, field='shared_object'), index=i)
+    return vals
+
+
+def run_history(ctx, spec, h, path, back, vals, expected, kw, coll):
+    from pmutt.io.thermdat import write_thermdat, read_thermdat
+    fmt2, kinds = h['format2'], h['edits']
+    n = len(vals)
+    snaps = [_snap(r) for r in vals]                  # the unchanged file, as first read
+    edited = [_edited(s, i, kinds) for i, s in enumerate(snaps)]
+    tg = _targets(n, h['targets'])
+    d = os.path.dirname(path)
+    base = os.path.basename(path)
+
+    def edit_first_result():
+        for i in tg:
+            _apply_edit(vals[i], edited[i], kinds)
+
+    if h['kind'] == 'reread':
+        edit_first_result()
+        second = _read_equals_snapshot(ctx, 'reread_after_edit', h, path, fmt2, snaps, earlier=vals)
+        if second:                                   # edit the second result too, read a third time
+            for i in tg:
+                _apply_edit(second[i], edited[i], kinds)
+            _read_equals_snapshot(ctx, 'reread_after_second_edit', h, path, spec['read_format'], snaps,
+                                  earlier=second)
+    elif h['kind'] == 'paths':
+        edit_first_result()
+        os.chdir(d)
+        _read_equals_snapshot(ctx, 'relative_path_after_chdir', h, base, fmt2, snaps, earlier=vals)
+        os.chdir('/')
+        link = os.path.join(d, 'link_' + base)
+        os.symlink(path, link)
+        try:
+            _read_equals_snapshot(ctx, 'symlink', h, link, fmt2, snaps, earlier=vals)
+        finally:
+            os.remove(link)
+        for spelled in (os.path.join(d, '.', base), d + '//' + base,
+                        os.path.join(d, '..', os.path.basename(d), base)):
+            _read_equals_snapshot(ctx, 'other_spelling', h, spelled, fmt2, snaps, earlier=vals)
+        # the same relative name in two directories
+        other = [dict(e) for e in edited]
+        d1, d2 = os.path.join(d, 'h1_' + base), os.path.join(d, 'h2_' + base)
+        for dd in (d1, d2):
+            os.makedirs(dd, exist_ok=True)
+        try:
+            os.chdir(d1)
+            ctx.call('H', {'history': 'write_relative'}, write_thermdat, coll, filename='thermdat.dat', **kw)
+            _read_equals_snapshot(ctx, 'same_name_dir1', h, 'thermdat.dat', fmt2, snaps)
+            os.chdir(d2)
+            ctx.call('H', {'history': 'write_relative'}, write_thermdat, _rebuild(vals, fmt2), filename='thermdat.dat',
+                     write_date=spec['write_date'])
+            back2 = ctx.call('H', {'history': 'same_name_dir2'}, read_thermdat, 'thermdat.dat', format=fmt2)
+            if back2 is not core.NOVALUE:
+                _expect(ctx, 'same_name_dir2', fmt2, _values(back2, fmt2), [_exp_of_snap(edited[i] if i in tg else snaps[i])
+                                                                            for i in range(n)], h)
+            os.chdir(d1)
+            _read_equals_snapshot(ctx, 'same_name_dir1_again', h, 'thermdat.dat', fmt2, snaps)
+        finally:
+            os.chdir('/')
+            for dd in (d1, d2):
+                _cleanup(os.path.join(dd, 'thermdat.dat'))
+                try:
+                    os.rmdir(dd)
+                except OSError:
+                    pass
+    elif h['kind'] == 'derive':
+        # write -> read -> edit -> write the edited objects elsewhere -> read both
+        edit_first_result()
+        path2 = os.path.join(d, 'derived_' + base)
+        r = ctx.call('H', {'history': 'write_derived'}, write_thermdat, _rebuild(vals, fmt2), filename=path2,
+                     write_date=spec['write_date'])
+        try:
+            if r is not core.NOVALUE:
+                _read_equals_snapshot(ctx, 'original_after_derive', h, path, fmt2, snaps, earlier=vals)
+                back2 = ctx.call('H', {'history': 'read_derived'}, read_thermdat, path2, format=fmt2)
+                if back2 is not core.NOVALUE:
+                    _expect(ctx, 'read_derived', fmt2, _values(back2, fmt2),
+                            [_exp_of_snap(edited[i] if i in tg else snaps[i]) for i in range(n)], h)
+                _read_equals_snapshot(ctx, 'original_after_derive_again', h, path, spec['read_format'], snaps)
+        finally:
+            _cleanup(path2)
+    elif h['kind'] == 'rewrite':
+        # replace the content of the path: same byte size, modification time pinned
+        st = os.stat(path)
+        # the new content is made of fresh objects (the first result stays as read), so a stale
+        # answer is the old file, not something that happens to equal the new one
+        newc = _rebuild([_nasa_from(edited[i] if i in tg else snaps[i]) for i in range(n)], fmt2)
+        txt = ctx.call('H', {'history': 'write_new_content'}, write_thermdat, newc, filename=None,
+                       write_date=spec['write_date'])
+        if txt is core.NOVALUE:
+            return
+        missing = st.st_size - len(txt.encode())
+        if missing >= 2:
+            # the old file had comment lines / a comment block: pad with one comment line so that
+            # the byte size is the same
+            txt = ctx.call('H', {'history': 'write_new_content'}, write_thermdat, newc, filename=None,
+                           write_date=spec['write_date'], supp_txt='!' + 'p' * (missing - 2))
+            if txt is core.NOVALUE:
+                return
+        want = [_exp_of_snap(edited[i] if i in tg else snaps[i]) for i in range(n)]
+        with open(path, 'w', newline='') as f:
+            f.write(txt)
+        same_size = os.stat(path).st_size == st.st_size
+        ctx.extra['rewrite_same_size'] = ctx.extra.get('rewrite_same_size', 0) + int(same_size)
+        ctx.extra['rewrite_other_size'] = ctx.extra.get('rewrite_other_size', 0) + int(not same_size)
+        os.utime(path, ns=(st.st_atime_ns, st.st_mtime_ns))
+        back2 = ctx.call('H', {'history': 'read_replaced_content'}, read_thermdat, path, format=fmt2)
+        if back2 is not core.NOVALUE:
+            _expect(ctx, 'read_replaced_content', fmt2, _values(back2, fmt2), want, h)
+        # and back again through the writer itself
+        r = ctx.call('H', {'history': 'write_original_again'}, write_thermdat, coll, filename=path, **kw)
+        if r is not core.NOVALUE:
+            os.utime(path, ns=(st.st_atime_ns, st.st_mtime_ns))
+            third = _read_equals_snapshot(ctx, 'read_restored_content', h, path, fmt2, snaps)
+            if third:                                 # edit that result, replace the content once more
+                for i in tg:
+                    _apply_edit(third[i], edited[i], kinds)
+                with open(path, 'w', newline='') as f:
+                    f.write(txt)
+                os.utime(path, ns=(st.st_atime_ns, st.st_mtime_ns))
+                back3 = ctx.call('H', {'history': 'read_replaced_content_again'}, read_thermdat, path,
+                                 format=spec['read_format'])
+                if back3 is not core.NOVALUE:
+                    _expect(ctx, 'read_replaced_content_again', spec['read_format'],
+                            _values(back3, spec['read_format']), want, h)
+
+
+def _nasa_from(e):
+    import numpy as np
+    from pmutt.empirical.nasa import Nasa
+    try:
+        return Nasa(name=e['name'], T_low=e['T_low'], T_mid=e['T_mid'], T_high=e['T_high'],
+                    a_low=np.array(e['a_low'], dtype=float), a_high=np.array(e['a_high'], dtype=float),
+                    phase=e['phase'], elements=dict(e['elements']), notes=e.get('notes'))
+    except Exception as exc:
+        raise core.HarnessError('could not build Nasa: %r' % exc)
+
+
+def _rebuild(vals, fmt):
+    """The (edited) objects as the collection a program would hand to the writer."""
+    return {('k%d' % i): r for i, r in enumerate(vals)} if fmt == 'dict' else list(vals)
+
+
+def _exp_of_snap(s):
+    return {'name': s['name'], 'phase': s['phase'], 'elements': {k: int(v) for k, v in s['elements'].items() if v != 0},
+            'T_low': s['T_low'], 'T_mid': s['T_mid'], 'T_high': s['T_high'], 'a_low': list(s['a_low']),
+            'a_high': list(s['a_high'])}
+
+
+def _expect(ctx, step, fmt2, vals, want, h):
+    mech = {'history': step, 'format2': fmt2}
+    if not ctx.check('H', len(vals) == len(want), dict(mech, field='count'), got=len(vals), want=len(want)):
+        return
+    for i, (r, e) in enumerate(zip(vals, want)):
+        d = _exp_diff(r, e)
+        ctx.check('H', d is None, dict(mech, field=d), index=i, got=_snap(r).get(d) if d else None,
+                  want=e.get(d) if d else None, edits=h['edits'], targets=h['targets'])
 
 
 def _cleanup(*paths):
